@@ -26,6 +26,12 @@ pub mod c18;
 pub mod c28;
 #[cfg(kani)]
 pub mod c15;
+#[cfg(kani)]
+pub mod c03;
+#[cfg(kani)]
+pub mod c04;
+#[cfg(kani)]
+pub mod c07;
 
 /// Counterexample replay (see lib/replay.py): the generated concrete-playback tests.
 #[cfg(all(kani, verif_playback))]
